@@ -12,7 +12,7 @@ tie:   `interval` enclosures of the generated model at exact dyadic inputs again
        l = 6 / 10), the derivative routine, solid harmonics, convert_cart_to_sph, the gradient conversion; the SciPy oracle
        hypothesis of the phi-derivative theorems is validated against scipy.special.sph_harm_y.
 search: an independent multiprecision oracle (explicit Legendre sum, mpmath, 60 digits — shares neither the recursion nor
-       SciPy): values of both implementations (l <= 20 / 40), both against each other (l <= 30 / 80), addition theorem
+       SciPy): values of both implementations (l <= 20 / 40), both against each other (l <= 80 / 200), addition theorem
        (l <= 30 / 60), both derivative blocks (l <= 12 / 30), solid harmonics, round trips incl. origin and z-axis.
 """
 from __future__ import annotations
@@ -330,6 +330,12 @@ def run(ctx: Ctx):
             for i in range((Ls + 1) ** 2):
                 y = float(S[i, j])
                 ctx.case(("solid", j, i))
+                if y != y or abs(y) == float("inf"):
+                    l, m = lm_of(i)
+                    yo = float(mp.sqrt(4 * mp.pi / (2 * l + 1)) * mp.mpf(r) ** l * o_Y(mp, l, m, mp.mpf(t), mp.mpf(p)))
+                    pend.add(l, "corr_solid", f"solid:{l}:{m}:{r!r}:{t!r}:{p!r}", repr(y), f"solid_harmonics (l,m)=({l},{m}) at (r,theta,phi)=({r!r},{t!r},{p!r}) is {y!r}; sqrt(4pi/(2l+1)) r^l Y_lm = {yo!r}",
+                             {"kind": "solid", "l_max": Ls, "l": l, "m": m, "pt": (r, t, p), "expected": yo})
+                    continue
                 cases.append((f"Rabs (nth {i} (solid_model {Ls} {lit(r)} {lit(t)} {lit(p)}) 0 - {lit(y)}) <= {tol_lit(y, Fraction(1, 10 ** 9))}", "enc"))
                 meta.append(("solid", j, i))
         ctx.count("solid_entries", (Ls + 1) ** 2 * len(spts))
@@ -542,7 +548,7 @@ def search(ctx: Ctx, gu, mp, pend: Pending, angles):
     ctx.count("search_values", 2 * (Lv + 1) ** 2 * len(sub))
 
     # ---- (b) both implementations against each other, higher degree, more angles
-    Lb = 30 if quick else 80
+    Lb = 80 if quick else 200
     nb = 24 if quick else 60
     th = [a[1] for a in angles] + [rng.uniform(-10, 20) for _ in range(nb)]
     ph = [a[2] for a in angles] + [rng.uniform(0, pi) for _ in range(nb)]
@@ -587,7 +593,8 @@ def search(ctx: Ctx, gu, mp, pend: Pending, angles):
 
     # ---- (d) derivative routine against the true derivatives
     Ld = 12 if quick else 30
-    dsub = [a for a in angles if a[0] in ("pole0", "polepi", "equator", "theta-negative", "theta>2pi", "theta-far")] + angles[-3:]
+    dsub = [a for a in angles if a[0] in ("pole0", "polepi", "equator", "theta-negative", "theta>2pi", "theta-far", "near-pole")] + angles[-3:]
+    dsub += [("near-pole-pi", -1.25, pi - 0.0078125), ("near-pole-tiny", 0.5, 2.0 ** -20)]
     th, ph = [a[1] for a in dsub], [a[2] for a in dsub]
     D = run2(gu.generate_derivative_real_spherical_harmonics, Ld, th, ph)
     if isinstance(D, str) or D.shape != (2, (Ld + 1) ** 2, len(dsub)):
